@@ -516,3 +516,126 @@ def rule_gf2_truth(ctx: Ctx, rel: str, qual: str) -> None:
                      func=qual, construct=f"{qual}: unreduced GF(2) sum decides validity")
             return
     ctx.ok("gf2.truth", m, rets[0], what=f"{qual}: every value tested for truth is reduced mod 2 ({n_ok} tests)")
+
+
+# ------------------------------------------------------------------------------------------------------ iter.snapshot
+
+_SNAPSHOT_CALLS = {"list", "tuple", "sorted", "set", "frozenset", "dict", "copy.copy", "copy.deepcopy", "deepcopy", "copy"}
+
+
+def _self_attr_root(e: ast.AST) -> Optional[str]:
+    """`self.X`, `self.X[k]`, `self.X.get(k, d)`, `self.X[k][j]`, `self.X.values()` ... -> X   (None when a snapshot call intervenes)"""
+    while True:
+        if isinstance(e, ast.Subscript):
+            e = e.value
+        elif isinstance(e, ast.Call) and isinstance(e.func, ast.Attribute) and e.func.attr in ("get", "values", "keys", "items"):
+            e = e.func.value
+        elif isinstance(e, ast.Attribute) and isinstance(e.value, ast.Name) and e.value.id == "self":
+            return e.attr
+        else:
+            return None
+
+
+def _pos_params(fn: ast.FunctionDef) -> List[str]:
+    return [a.arg for a in fn.args.posonlyargs + fn.args.args if a.arg != "self"]
+
+
+def _arg_at(c: ast.Call, fn: ast.FunctionDef, i: int) -> Optional[ast.AST]:
+    ps = _pos_params(fn)
+    if i < len(c.args):
+        return c.args[i]
+    for k in c.keywords:
+        if k.arg == ps[i]:
+            return k.value
+    return None
+
+
+def _removal_summaries(methods: Dict[str, ast.FunctionDef]) -> Dict[str, Set[Tuple[str, int]]]:
+    """method -> {(container attribute R, parameter index i)}: the method takes its i-th argument out of a list held in
+    self.R (directly by `.remove(p)` / `del` or through another method of the object)."""
+    rem: Dict[str, Set[Tuple[str, int]]] = {k: set() for k in methods}
+    for k, f in methods.items():
+        ps = _pos_params(f)
+        for n in ast.walk(f):
+            if isinstance(n, ast.Call) and isinstance(n.func, ast.Attribute) and n.func.attr in ("remove", "discard") and n.args:
+                r = _self_attr_root(n.func.value)
+                if r and isinstance(n.args[0], ast.Name) and n.args[0].id in ps:
+                    rem[k].add((r, ps.index(n.args[0].id)))
+    changed = True
+    while changed:
+        changed = False
+        for k, f in methods.items():
+            ps = _pos_params(f)
+            for c in calls_in(f):
+                fu = c.func
+                if isinstance(fu, ast.Attribute) and isinstance(fu.value, ast.Name) and fu.value.id == "self" and fu.attr in rem:
+                    for (r, i) in list(rem[fu.attr]):
+                        a = _arg_at(c, methods[fu.attr], i)
+                        if isinstance(a, ast.Name) and a.id in ps and (r, ps.index(a.id)) not in rem[k]:
+                            rem[k].add((r, ps.index(a.id)))
+                            changed = True
+    return rem
+
+
+def rule_iter_snapshot(ctx: Ctx, rel: str, cname: str) -> None:
+    """iter.snapshot: a loop that walks one of the object's own lists and takes the element it is looking at out of that list
+    (directly or through the object's methods) must walk a copy; otherwise the list iterator skips the element that follows
+    every removed one."""
+    repo = ctx.repo
+    m = repo.module(rel)
+    ci = repo.cls(cname, rel)
+    methods = dict(ci.methods())
+    for b in repo.mro(ci)[1:]:
+        for k, v in b.methods().items():
+            methods.setdefault(k, v)
+    rem = _removal_summaries(methods)
+    if not any(rem.values()):
+        raise AnalysisError(f"{cname}: no method that removes an element from an own list (anchor moved?)")
+    live = removing = 0
+    for k, f in ci.methods().items():
+        env: Dict[str, List[ast.AST]] = {}
+        for s in ast.walk(f):
+            if isinstance(s, ast.Assign) and len(s.targets) == 1 and isinstance(s.targets[0], ast.Name):
+                env.setdefault(s.targets[0].id, []).append(s.value)
+        for loop in [s for s in ast.walk(f) if isinstance(s, ast.For)]:
+            it = loop.iter
+            if isinstance(it, ast.Name) and len(env.get(it.id, [])) == 1:
+                it = env[it.id][0]
+            root = _self_attr_root(it)
+            tnames = set(_names(loop.target)[0])
+            # calls in the body that remove an element from some own list
+            rd = None
+            for c in calls_in(loop):
+                fu = c.func
+                hits: List[Tuple[str, ast.AST]] = []
+                if isinstance(fu, ast.Attribute) and isinstance(fu.value, ast.Name) and fu.value.id == "self" and fu.attr in rem:
+                    for (r, i) in rem[fu.attr]:
+                        a = _arg_at(c, methods[fu.attr], i)
+                        if a is not None:
+                            hits.append((r, a))
+                elif isinstance(fu, ast.Attribute) and fu.attr in ("remove", "discard") and c.args and _self_attr_root(fu.value):
+                    hits.append((_self_attr_root(fu.value), c.args[0]))
+                for r, a in hits:
+                    if not (isinstance(a, ast.Name) and a.id in tnames):
+                        continue
+                    if rd is None:
+                        rd = ReachingDefs(loop)
+                    try:
+                        st = rd.at.get(id(_stmt_of(loop, c)))
+                    except AnalysisError:
+                        st = None
+                    if st is None or loop not in rd.get(st, a.id):
+                        continue  # the name was re-bound: it is no longer the element being iterated
+                    removing += 1
+                    ctx.touch(m, f)
+                    if root is not None and root == r:
+                        live += 1
+                        ctx.fail("iter.snapshot", m, loop,
+                                 f"{cname}.{k} iterates over `{short(it, 60)}` (the live list inside self.{root}) and its body takes the current element "
+                                 f"`{a.id}` out of self.{r} through `{short(c, 50)}`: the list iterator then skips the element after each removed one, "
+                                 f"so only every other entry is processed", func=f"{cname}.{k}",
+                                 construct=f"{cname}.{k}: removes the iterated element from the live self.{root} list")
+                    else:
+                        ctx.ok("iter.snapshot", m, loop, what=f"{cname}.{k}: removes `{a.id}` while walking `{short(it, 40)}` (a snapshot / another container)")
+    if removing == 0:
+        raise AnalysisError(f"{cname}: no loop removes the element it iterates over (the remove_* loops moved?)")
